@@ -619,6 +619,11 @@ func retryLoopsWait(c *kit.Ctx) {
 		}
 		cyc := kit.FindCycle(fn, func(b *ssa.BasicBlock) bool { return waitBlocks[b] }, removedEdge)
 		if cyc != nil {
+			// the graph search has no memory of the branches taken: confirm with the path-sensitive search (a
+			// cycle that needs a flag to be true at one test and false at the next is not a cycle)
+			cyc = kit.FindCycleSensitive(fn, func(b *ssa.BasicBlock) bool { return waitBlocks[b] }, removedEdge)
+		}
+		if cyc != nil {
 			var parts []string
 			for _, b := range cyc {
 				parts = append(parts, p.Pos(firstPos(b)))
